@@ -142,7 +142,9 @@ def run(ctx):
     g_scripts(ctx, FOCUS, "gen2", "EBB3Link_gen2.cfg", 2, True, every=1 if not q else 3)
     extra_none_text(ctx)
     v_histories(ctx, FOCUS, 200 if q else 5000, 12, 0.06, 5,
-                boards=[{"nick": "Lab", "m1": False, "m2": False, "res": 1, "volt": 300}, {"nick": "", "m1": True, "m2": False, "res": 3, "volt": 120}])
+                boards=[{"nick": "Lab", "m1": False, "m2": False, "res": 1, "volt": 300}, {"nick": "", "m1": True, "m2": False, "res": 3, "volt": 120},
+                        {"nick": "Q7", "m1": True, "m2": True, "res": 2, "volt": 251}, {"nick": "East Wing", "m1": False, "m2": True, "res": 4, "volt": 250},
+                        {"nick": "Lab", "m1": True, "m2": True, "res": 5, "volt": 249}, {"nick": "Lab", "m1": True, "m2": True, "res": 1, "volt": 300}])
     ctx.exhaustive = True
     ctx.trusted += ["TLC 1.8", "harness/ebb3lib.py ScriptedPort and reply rendering", "PyBoard (cross-checked by the judge's desync clause)", "vlib parser"]
     ctx.assumptions += ["timeouts are empty reads; USB faults are serial.SerialException at a write or a read; replies are ASCII",
